@@ -394,8 +394,13 @@ RECURSIVE AnySeq(_)
 RECURSIVE AnyPairs(_)
 AnySeq(a) == IF a = <<>> THEN FALSE ELSE HasSmallBignumTag(a[1]) \/ AnySeq(Tail(a))
 AnyPairs(m) == IF m = <<>> THEN FALSE ELSE HasSmallBignumTag(m[1][1]) \/ HasSmallBignumTag(m[1][2]) \/ AnyPairs(Tail(m))
+F7Bytes(tg, b) ==   \* a byte string under tag 2/3 that a definite-length encoding would have folded into an integer (or rejected)
+  /\ Len(b) <= 16
+  /\ \/ Len(StripZeros(b)) <= 8
+     \/ (b # <<>> /\ b[1] = 0)
+     \/ (tg = <<3>> /\ Len(b) = 16 /\ b[1] >= 128)
 HasSmallBignumTag(v) ==
-  CASE v.t = "tag" -> (v.tag \in {<<2>>, <<3>>} /\ v.x.t = "bytes" /\ Len(StripZeros(v.x.b)) <= 8) \/ HasSmallBignumTag(v.x)
+  CASE v.t = "tag" -> (v.tag \in {<<2>>, <<3>>} /\ v.x.t = "bytes" /\ F7Bytes(v.tag, v.x.b)) \/ HasSmallBignumTag(v.x)
     [] v.t = "array" -> AnySeq(v.a)
     [] v.t = "map" -> AnyPairs(v.m)
     [] OTHER -> FALSE
